@@ -7,8 +7,188 @@
 
 namespace vs
 {
+// multi-writer variant: several threads store into one logger's backtrace concurrently; the flush is issued when they are
+// joined (quiet), so what must come out is exact in number and, per thread, the most recent ones in order
+static Plan gen_c18_multi(uint64_t seed, int tier)
+{
+  Rng r(seed);
+  Plan p;
+  p.profile = "C18";
+  p.seed = seed;
+  p.cfg["multi_writer"] = 1;
+  p.cfg["fo"] = r.pick<int>({0, 1, 1, 5});
+  gen_sched(p, r);
+  gen_backend(p, r);
+  p.cfg["grace_us"] = r.pick<int64_t>({1, 1, 20});
+  p.cfg["nloggers"] = 1;
+  p.cfg["nsinks"] = r.range(1, 2);
+  p.cfg["logger0_sinks"] = r.range(1, (1 << p.cfg["nsinks"]) - 1);
+  p.cfg["logger0_clock"] = 0;
+  fix_timescale(p);
+  int cycles = static_cast<int>(r.range(1, tier ? 5 : 3));
+  int64_t cap = r.range(1, 8);
+  p.cfg["bt_capacity"] = cap;
+  p.threads.resize(1);
+  p.threads[0].push_back(Op{OP_BT_INIT, 0, cap, 10});
+  for (int c = 0; c < cycles; ++c)
+  {
+    int writers = static_cast<int>(r.range(2, 3));
+    std::vector<int> tids;
+    for (int w = 0; w < writers; ++w)
+    {
+      int t = static_cast<int>(p.threads.size());
+      p.threads.emplace_back();
+      int n = static_cast<int>(r.pick<int64_t>({0, 1, cap / 2 + 1, cap, cap + 1, 2 * cap}));
+      for (int i = 0; i < n; ++i)
+      {
+        p.threads[static_cast<size_t>(t)].push_back(Op{OP_BT_LOG, 0, 0, 0, static_cast<int64_t>(r.next() >> 8), static_cast<int64_t>(r.below(20)), 0});
+        if (r.chance(1, 5))
+        {
+          p.threads[static_cast<size_t>(t)].push_back(Op{OP_SLEEP, r.pick<int64_t>({100, 1000})});
+        }
+      }
+      tids.push_back(t);
+    }
+    for (int t : tids)
+    {
+      p.threads[0].push_back(Op{OP_SPAWN, t});
+    }
+    for (int t : tids)
+    {
+      p.threads[0].push_back(Op{OP_JOIN, t});
+    }
+    p.threads[0].push_back(Op{OP_BT_FLUSH, 0});
+    p.threads[0].push_back(Op{OP_FLUSH, 0, 100});
+  }
+  return p;
+}
+
+static Verdict judge_c18_multi(Plan const& p, History const& h, RunInfoLite const& ri)
+{
+  Verdict v;
+  if (ri.stuck || !ri.completed)
+  {
+    v.kind = Verdict::INCONCLUSIVE;
+    v.tag = "did_not_finish:" + ri.stuck_reason;
+    v.detail = ri.where;
+    return v;
+  }
+  Model m = Model::build(p, h);
+  size_t const cap = static_cast<size_t>(p.get("bt_capacity", 1));
+  // cycles: the writer threads spawned between two BT_FLUSH ops of main
+  std::vector<std::vector<int>> cycle_threads(1);
+  for (auto const& op : p.threads[0])
+  {
+    if (op.k == OP_SPAWN)
+    {
+      cycle_threads.back().push_back(static_cast<int>(op.v[0]));
+    }
+    else if (op.k == OP_BT_FLUSH)
+    {
+      cycle_threads.emplace_back();
+    }
+  }
+  uint64_t cycles_checked = 0, replayed = 0;
+  int64_t mask = m.mask_of_logger_at(0, 0);
+  for (size_t s = 0; s < m.by_sink.size(); ++s)
+  {
+    if (!((mask >> s) & 1))
+    {
+      continue;
+    }
+    std::set<int64_t> seen;
+    for (auto const& w : m.by_sink[s])
+    {
+      auto it = m.issued.find(w.id);
+      if (w.id < 0 || it == m.issued.end())
+      {
+        return violation("garbled_statement", "sink " + std::to_string(s) + ": '" + w.msg->substr(0, 80) + "'");
+      }
+      if (!seen.insert(w.id).second)
+      {
+        return violation("backtrace_statement_replayed_twice", "id " + std::to_string(w.id) + " on sink " + std::to_string(s),
+                         {{"multi_writer", "1"}});
+      }
+      if (*w.msg != it->second.expected)
+      {
+        return violation("text_mismatch", "id " + std::to_string(w.id));
+      }
+      std::string why = attribution_error(m, it->second, static_cast<int>(s), w);
+      if (!why.empty())
+      {
+        return violation("wrong_attribution", "replayed id " + std::to_string(w.id) + " on sink " + std::to_string(s) + ": " + why,
+                         {{"multi_writer", "1"}});
+      }
+    }
+    for (auto const& threads : cycle_threads)
+    {
+      if (threads.empty())
+      {
+        continue;
+      }
+      std::set<int> ts(threads.begin(), threads.end());
+      size_t stored = 0;
+      std::map<int, std::vector<int64_t>> stored_by_thread;
+      for (int64_t id : m.issue_order)
+      {
+        Issued const& is = m.issued.at(id);
+        if (ts.count(is.thread) && is.kind == 1 && is.result == 1)
+        {
+          ++stored;
+          stored_by_thread[is.thread].push_back(id);
+        }
+      }
+      std::vector<Write const*> got;
+      for (auto const& w : m.by_sink[s])
+      {
+        if (ts.count(m.issued.at(w.id).thread))
+        {
+          got.push_back(&w);
+        }
+      }
+      size_t want_n = std::min(cap, stored);
+      if (got.size() != want_n)
+      {
+        return violation("backtrace_flush_replayed_wrong_number_of_statements",
+                         "sink " + std::to_string(s) + ": " + std::to_string(stored) + " statements stored by " + std::to_string(threads.size()) +
+                           " threads with capacity " + std::to_string(cap) + ", " + std::to_string(got.size()) + " replayed",
+                         {{"multi_writer", "1"}});
+      }
+      // per thread: a suffix of what it stored, in its order.  (Nothing is demanded about the order ACROSS threads: the ring
+      // holds statements in the order the backend processed them, which is timestamp order only under the conditions of the
+      // backend's grace period — a first version of this oracle demanded non-decreasing timestamps and was wrong.)
+      std::map<int, std::vector<int64_t>> got_by_thread;
+      for (size_t i = 0; i < got.size(); ++i)
+      {
+        got_by_thread[m.issued.at(got[i]->id).thread].push_back(got[i]->id);
+      }
+      for (auto const& kv : got_by_thread)
+      {
+        auto const& all = stored_by_thread[kv.first];
+        if (kv.second.size() > all.size() || !std::equal(kv.second.begin(), kv.second.end(), all.end() - static_cast<long>(kv.second.size())))
+        {
+          return violation("backtrace_replay_is_not_the_most_recent_of_a_thread",
+                           "sink " + std::to_string(s) + " thread " + std::to_string(kv.first) + ": replayed " + ids_to_string(kv.second) +
+                             " of stored " + ids_to_string(all),
+                           {{"multi_writer", "1"}});
+        }
+      }
+      ++cycles_checked;
+      replayed += got.size();
+    }
+  }
+  v.nontrivial = cycles_checked >= 1 && replayed >= 1;
+  v.probes["multi_writer_cycles_checked"] = cycles_checked;
+  v.probes["statements_replayed"] = replayed;
+  return v;
+}
+
 Plan gen_c18(uint64_t seed, int tier)
 {
+  if ((seed >> 3) % 4 == 0)
+  {
+    return gen_c18_multi(seed, tier);
+  }
   Rng r(seed);
   Plan p;
   p.profile = "C18";
@@ -95,6 +275,10 @@ Plan gen_c18(uint64_t seed, int tier)
 
 Verdict judge_c18(Plan const& p, History const& h, RunInfoLite const& ri)
 {
+  if (p.get("multi_writer", 0))
+  {
+    return judge_c18_multi(p, h, ri);
+  }
   Verdict v;
   if (ri.stuck || !ri.completed)
   {
@@ -286,6 +470,7 @@ Verdict judge_c18(Plan const& p, History const& h, RunInfoLite const& ri)
   v.probes["nonempty_flush_after_an_earlier_wrapped_flush"] = second_cycle_after_wrap;
   v.probes["statements_replayed"] = replayed;
   v.probes["reinitialisations"] = reinit;
+  v.probes["multi_writer_cycles_checked"] = 0;
   v.probes["replayed_statements_with_a_throwing_sink"] = faulty_replays;
   return v;
 }
@@ -304,7 +489,9 @@ void register_c18(std::vector<Profile>& v)
     "must equal a reference ring model exactly; distinct = distinct event hash; non-trivial = >=1 flush that replayed >=1 statement";
   p.real_components = {"BacktraceStorage", "BackendWorker::_process_transit_event (Backtrace/InitBacktrace/FlushBacktrace)", "frontend, queues"};
   p.stub_components = {"recording sinks", "clock (virtual)", "scheduling (simulator)"};
-  p.assumptions = {"one writer thread per backtrace logger (the exact model); re-initialisation only with the ring empty and nothing in flight"};
+  p.assumptions = {"exact model: one writer thread per backtrace logger; re-initialisation only with the ring empty and nothing in flight",
+                   "multi-writer variant (1 run in 4): 2-3 threads store concurrently, the flush is issued after they are joined; demanded: each id once, "
+                   "min(capacity, stored) statements, per thread the most recent ones in that thread's order (no order demanded across threads)"};
   p.quick_runs = 20000;
   p.thorough_runs = 400000;
   v.push_back(p);
